@@ -17,11 +17,15 @@ class C08(Prop):
     coq_files = ("Base", "C08_Model", "C08_Spec", "C08_Proofs", "C08_Props")
     models = ("C08_Model",)
     packages = {"cc": "internal/app/connectconformance", "main": "cmd/connectconformance"}
-    kinds = {"c08.trie": "cc", "c08.accept": "cc", "c08.checks": "cc", "c08.args": "main", "c08.file": "main"}
+    kinds = {"c08.trie": "cc", "c08.accept": "cc", "c08.checks": "cc", "c08.checks2": "cc", "c08.args": "main", "c08.file": "main"}
     rule = ("c08.trie: every set of <=2 patterns of length <=L over {a,b,*,**} against every name of length <=4 over {a,b} "
             "(L=3 quick, 4 thorough) plus seeded random sets of up to 8 patterns (shared prefixes, empty components, literal "
             "'*' in names, 'foo*'); c08.accept: random run/skip sets; c08.checks: the validation block of run() on generated "
-            "suites; c08.args/c08.file: every split of a pattern list over flag occurrences and @files, file syntax variants. "
+            "suites; c08.checks2: the same through run() in client / server / both-reference mode on libraries with Connect, gRPC and "
+            "gRPC-Web suites, so that the marked gRPC-peer permutations are among the names (directed: pattern lists whose only common "
+            "matches are marked names; random patterns derived from marked names); c08.args/c08.file: every split of a pattern list "
+            "over flag occurrences and @files, file syntax variants, lines of 64 KiB-1 / 64 KiB / 64 KiB+1 / 200 KiB (comment, blank, pattern) "
+            "followed by further patterns. "
             "non-trivial = at least one name matched and at least one not, or a non-empty result list")
     trusted_base = ("Coq 8.16.1 kernel (vm_compute used, native_compute not)", "extraction (ExtrOcamlBasic only) + ocaml/driver.ml",
                     "vlib generators/comparator, Go overlay harness files",
@@ -30,10 +34,13 @@ class C08(Prop):
                    "Go map iteration order does not influence the compared observables (sets are sorted)")
 
     level_text = ("Machine-checked proof (Coq) that the trie matcher, run/skip filter, unmatched-pattern detection, failing/flaky conflict "
-                  "check and flag/@file collection of the model equal the glob specification for all pattern sets and names; the model is tied "
+                  "check (over ALL permutation names, the marked gRPC-peer names included) and flag/@file collection of the model equal the glob "
+                  "specification for all pattern sets and names; the model is tied "
                   "to the Go code by a bounded-exhaustive plus random differential run on every check.")
     level_note = ("Trusted: Coq kernel, extraction, OCaml driver, harness; the correspondence between model and Go code is sampled "
-                  "(bounded-exhaustive for pattern sets <=2 x length <=3/4), not proved. pflag accumulation and os.ReadFile are outside the model.")
+                  "(bounded-exhaustive for pattern sets <=2 x length <=3/4), not proved. pflag accumulation and os.ReadFile are outside the model. "
+                  "The name set of the validation block (perm_names: base names + marked names of the cases a gRPC peer supports) is modelled for "
+                  "suites with one protocol / HTTP version / codec / compression; eligibility by codec, compression, TLS and raw payloads is C05's.")
     technique = "Coq proof of model = glob spec (induction over trie and pattern); differential model-vs-Go correspondence"
 
     def nontrivial(self, case, res):
@@ -110,6 +117,63 @@ class C08(Prop):
             run = [pat() for _ in range(rng.randint(0, 2))]
             skip = [pat() for _ in range(rng.randint(0, 1))] + ["**"]
             yield ["c08.checks", failing, flaky, run, skip, nms]
+        # checks through run() with gRPC-peer permutations in the library (all three run modes):
+        # the validation block must work on ALL permutations, the marked names included
+        MARK = {(1, 0): "(grpc client impl)", (0, 1): "(grpc server impl)", (1, 1): "(grpc impls)"}
+
+        def perms(suites, refc, refs):
+            out = []
+            for su, proto, cs in suites:
+                out += ["%s/TLS:false/%s" % (su, c) for c in cs]
+                for (cg, sg), mk in MARK.items():
+                    if (cg and not refc) or (sg and not refs):
+                        continue
+                    if (cg and proto != 2) or proto == 1:
+                        continue
+                    out += ["%s/TLS:false/%s/%s" % (su, mk, c) for c in cs]
+            return out
+        modes = [(0, 1), (1, 0), (1, 1)]
+        directed = []
+        for refc, refs in modes:
+            for proto in (2, 3, 1):
+                suites = [["g", proto, ["x", "y/z"]], ["c", 1, ["x"]]]
+                for mk in MARK.values():
+                    # only common matches of the two lists (if any) are marked names
+                    directed.append([["**/%s/**" % mk], ["g/**"], [], ["**"], suites, refc, refs])
+                    directed.append([["g/**"], ["**/%s/**" % mk], [], ["**"], suites, refc, refs])
+                    directed.append([["g/TLS:false/%s/x" % mk], ["g/*/*/x"], [], ["**"], suites, refc, refs])
+                    directed.append([["**/%s/**" % mk], ["c/**"], [], ["**"], suites, refc, refs])
+                    directed.append([["g/TLS:false/*"], ["g/TLS:false/%s/*" % mk], ["**/%s/**" % mk], ["**"], suites, refc, refs])
+        for d in directed:
+            yield ["c08.checks2"] + d
+        for _ in range(250 if tier == "quick" else 4000):
+            refc, refs = rng.choice(modes)
+            sus = []
+            for su in rng.sample(["a", "b", "g"], rng.randint(1, 3)):
+                cs = sorted({"/".join(rng.choice("ab") for _ in range(rng.randint(1, 2))) for _ in range(rng.randint(1, 3))})
+                sus.append([su, rng.choice([1, 2, 2, 3]), cs])
+            pn = perms(sus, refc, refs)
+            marked = [n for n in pn if "(grpc" in n]
+
+            def pat2():
+                r = rng.random()
+                if r < 0.75:
+                    c = rng.choice(marked if (marked and rng.random() < 0.6) else pn).split("/")
+                    for i in range(len(c)):
+                        r = rng.random()
+                        if r < 0.2:
+                            c[i] = "*"
+                        elif r < 0.3:
+                            c[i] = "**"
+                    return "/".join(c)
+                if r < 0.9:
+                    return "**/%s/**" % rng.choice(list(MARK.values()))
+                return "/".join(rng.choice(calpha) for _ in range(rng.randint(1, 4)))
+            failing = [pat2() for _ in range(rng.randint(0, 2))]
+            flaky = [pat2() for _ in range(rng.randint(0, 2))]
+            run = [pat2() for _ in range(rng.randint(0, 1))]
+            skip = [pat2() for _ in range(rng.randint(0, 1))] + ["**"]
+            yield ["c08.checks2", failing, flaky, run, skip, sus, refc, refs]
         # flag / @file collection: all splits of a pattern list over <=4 args with 0-2 @files
         plist = ["p1", "a/*", "b/**", "c", "d/e", "f"]
         for nargs in range(0, 5):
@@ -130,6 +194,14 @@ class C08(Prop):
         for f in files:
             yield ["c08.file", f]
             yield ["c08.args", [[0, "z"], [1, f], [0, "y"]]]
+        # very long lines (a token limit of a line reader must not end the collection): 64 KiB - 1, 64 KiB,
+        # 64 KiB + 1 and 200 KiB, as a comment line, as a pattern and as blank padding, with patterns after them
+        for n in (65535, 65536, 65537, 200 * 1024):
+            for body in (b"#" + b"c" * (n - 1), b" " * n, b"p" * n):
+                for pre, post in ((b"first\n", b"\nafter/long\n**/x\n"), (b"", b"\nlast-no-newline")):
+                    f = pre + body + post
+                    yield ["c08.file", f]
+            yield ["c08.args", [[0, "z"], [1, b"a\n#" + b"c" * (n - 1) + b"\nb\n"], [0, "y"], [1, b"#" + b"d" * n + b"\r\nq"]]]
         for _ in range(200 if tier == "quick" else 5000):
             f = bytes(rng.choice(b"ab#/ *\t\r\n\n") for _ in range(rng.randint(0, 24)))
             yield ["c08.file", f]
